@@ -38,7 +38,16 @@ func (cache *dirCache) Store(target *core.BuildTarget, key []byte, files []strin
 	tmpDir := cache.getFullPath(target, key, "", "=")
 	cache.markDir(cacheDir, 0)
 	verifhook.Point("dircache.store.marked")
-	if err := fs.RemoveAll(cacheDir); err != nil {
+	// Never delete an existing entry in place: if we died partway (or someone retrieved it meanwhile)
+	// what's left would still be found under its real name and look like a complete entry.
+	// Move it to the temporary name first, which is atomic, and delete it from there.
+	if err := fs.RemoveAll(tmpDir); err != nil {
+		log.Warning("Failed to remove temporary cache directory %s: %s", tmpDir, err)
+		return
+	} else if err := os.Rename(cacheDir, tmpDir); err != nil && !os.IsNotExist(err) {
+		log.Warning("Failed to move existing cache directory %s: %s", cacheDir, err)
+		return
+	} else if err := fs.RemoveAll(tmpDir); err != nil {
 		log.Warning("Failed to remove existing cache directory %s: %s", cacheDir, err)
 		return
 	}
